@@ -333,3 +333,38 @@ def mem_units(ctx: Ctx) -> None:
             ok = not (u == COUNT or u.startswith("CLASH") or u == "ITEM")
             ctx.ob(f, c, ok, f"extra_projected_mem=`{unparse(v, 40)}` has unit {u}; it must be BYTES" + ("" if ok else " — an element count / shape is not a memory size"), sel=f"units:extra:{unparse(v, 30)}", nontrivial=u == BYTES)
     ctx.need(n >= 6, f"only {n} extra_projected_mem declarations found")
+
+
+@rule("MEM-DTYPE-1", props=["C03"], floor=1)
+def mem_dtype(ctx: Ctx) -> None:
+    """where an operation declares extra memory as array_memory(<dtype>, <its own output chunk
+    shape>), the dtype is the operation's output dtype (reduced/intermediate chunks have the
+    output dtype, which may be wider than the input's)"""
+    repo = ctx.repo
+    n = 0
+    for f in repo.functions():
+        if f.module.qual.startswith(("cubed.vendor.", "cubed.primitive.", "cubed.runtime.")):
+            continue
+        for c in f.own_nodes():
+            if not isinstance(c, ast.Call):
+                continue
+            e = kwarg(c, "extra_projected_mem")
+            dt, ch = kwarg(c, "dtypes"), kwarg(c, "chunkss")
+            if e is None or dt is None or ch is None:
+                continue
+            if not (isinstance(dt, ast.List) and len(dt.elts) == 1 and isinstance(ch, ast.List) and len(ch.elts) == 1):
+                continue
+            fl, cfg = flow_of(repo, f), cfg_of(f)
+            at = cfg.node_of(c)
+            exprs = [e]
+            if isinstance(e, ast.Name):
+                exprs = [s_.value for s_ in fl.rdefs(e.id, at) if s_.value is not None]
+            out_dtype, out_chunks = unparse(dt.elts[0]), unparse(ch.elts[0])
+            for ex in exprs:
+                for am in [x for x in ast.walk(ex) if isinstance(x, ast.Call) and f"{A.UTILS}.array_memory" in repo.callee_quals(x, f) and len(x.args) == 2]:
+                    if out_chunks not in unparse(am.args[1]):
+                        continue  # memory of something else (an input chunk, a copy chunk)
+                    n += 1
+                    ok = unparse(am.args[0]) == out_dtype
+                    ctx.ob(f, am, ok, f"`{unparse(am, 60)}` sizes chunks of this operation's output grid; its dtype must be the output dtype `{out_dtype}`" + ("" if ok else f" — it uses `{unparse(am.args[0])}`: a widening reduction keeps reduced chunks that are larger than declared"), sel=f"dtype:{unparse(am, 50)}")
+    ctx.need(n >= 1, "no array_memory(<dtype>, <output chunks>) declaration found")
